@@ -155,6 +155,10 @@ class ExtentAttribute:
 
       s = extent.split(" ")
 
+      if len(s) != 2:
+        LOGGER.error("ttp:extent on <tt> does not consist of two lengths")
+        return None
+
       (w, w_units) = utils.parse_length(s[0])
 
       (h, h_units) = utils.parse_length(s[1])
